@@ -3,6 +3,7 @@ from ..srcmodel import AnalysisError, Unknown
 from .. import facts as F
 from .. import pipeline as P
 from ..microeval import run_function, eval_term
+from ..relang import Algebra, Unsupported
 from . import common_url as U
 from . import common_quote as Q
 from . import common_norm as NM
@@ -22,21 +23,29 @@ def is_norm_call(x):
     return x[0] == "call" and x[1] == "ural.normalize_url.normalize_url"
 
 
+def outer_norm_calls(t):
+    """the normalize_url calls whose result feeds the components (not those nested in another call's url argument)"""
+    calls = [x for x in P.subterms(t) if is_norm_call(x)]
+    nested = set()
+    for c in calls:
+        arg = c[2][0] if c[2] else dict(c[3]).get("url")
+        if arg is not None:
+            for y in P.subterms(arg):
+                if is_norm_call(y):
+                    nested.add(y)
+    return set(c for c in calls if c not in nested)
+
+
 def run(ctx):
     absorption(ctx, "R1")
     fingerprint_over_normalize(ctx, "R2")
     from .c02 import control_chars_language
     ctx.rule("R3", "shared cleaning pattern deletes control characters only: a printable character that canonicalize_url unescapes (e.g. %E2%80%8B) must not be deleted by the next scheme's cleaning pass")
     control_chars_language(ctx, "R3")
-    from .c04 import sort_key
     n = NM.Norm(ctx)
-    sort_key(ctx, "R4", n)
     U.rule_qsl(ctx, "R5")
     default_protocol(ctx, "R6", n)
-    # the platform tests of normalize_url(platform_aware=True) see the raw (not yet lower-cased) string
-    import json as _json2
-    from .c18 import site_languages, SPEC as _SPEC
-    site_languages(ctx, "R7", "facebook", _json2.load(open(_SPEC))["facebook"])
+    redirection_sees_decoded_letters(ctx, "R8")
 
 
 def default_protocol(ctx, rule, n):
@@ -115,6 +124,21 @@ def absorption(ctx, rule):
         for names, it, ifs in c[3]:
             bad = F.unguarded_paths(it, F.is_call(U.U + "safe_qsl_iter"), F.is_call(U.Q + "safely_unquote_qsl"))
             ctx.ob(rule, "absorb/query/filter-on-unescaped-items", not bad, "normalize_url filters still-escaped query items", site, witness="http://a.com/?utm%5Fsource=x")
+    # the routing-fragment decision sees the unescaped fragment (canonicalize_url(quoted=True) writes '#!/r' as '#%21/r')
+    fr = F.simplify(n.fragment, {"strip_fragment": "except-routing"})
+    for u in F.find_nodes(fr, F.is_call(NM.N + "should_strip_fragment")):
+        bad = F.unguarded_paths(u[2][0], U.is_attr("fragment"), F.is_call(U.UNQUOTE["fragment"])) if u[2] else [u]
+        ctx.ob(rule, "absorb/fragment/routing-decided-on-unescaped-text", not bad,
+               "normalize_url decides whether the fragment is routing before unescaping it: normalize_url(canonicalize_url('http://a.com/app#!/r', quoted=True)) drops the fragment that normalize_url('http://a.com/app#!/r') keeps", site, witness="http://a.com/app#%21/r")
+    # platform parsers see the canonicalized url (resolved dot segments, unescaped ids)
+    PLAT = ("ural.facebook.is_facebook_url", "ural.facebook.parse_facebook_url", "ural.youtube.is_youtube_url", "ural.youtube.normalize_youtube_url")
+    plat_nodes = [x for x in P.subterms(n.t) if x[0] == "call" and x[1] in PLAT]
+    ctx.require_instances(rule, len(plat_nodes), 2, "platform parser calls in normalize_url")
+    for x in plat_nodes:
+        bad = F.unguarded_paths(x[2][0], F.is_param("url"), F.is_call("ural.canonicalize_url.canonicalize_url")) if x[2] else [x]
+        ctx.ob(rule, "absorb/platform/%s-sees-canonical-url" % x[1].rpartition(".")[2], not bad,
+               "normalize_url(platform_aware=True) hands %s a url whose dot segments / escapes are not resolved: 'youtube.com//watch?v=...' or 'facebook.com/a/%%2E%%2E/page' are rewritten differently before and after canonicalize_url" % x[1].rpartition(".")[2],
+               site, witness="https://www.youtube.com//watch?v=abcdefghijk&x=1")
     # identical port tables
     ctx.rule("R1p", "port agreement: canonicalize_url and normalize_url drop exactly the same (scheme, port) pairs")
 
@@ -138,6 +162,9 @@ def absorption(ctx, rule):
                    sample="%s -> canonical %r, normalize %r" % (k, tc[k], tn[k]))
     except Unknown as e:
         ctx.undecided("R1p", "port sinks not interpretable: %s" % e)
+    # a protocol-relative url: canonicalize_url gives it its default protocol (https) before parsing, normalize_url
+    # parses it with an empty scheme and must therefore treat '' as that protocol in its port rule
+    U.port_drop_table(ctx, "R1p", "normalize_url", n.port, site, relative_as="https")
     # shared byte tables
     m, binds, params, sets = Q.model(ctx)
     Q.rule_decode_set(ctx, "R1d", m, params, sets)
@@ -149,12 +176,27 @@ def fingerprint_over_normalize(ctx, rule):
     mod = ref.module
     site = mod.site(ref.node)
     scheme, netloc, path, query, fragment = t[2]
-    ncalls = set(x for x in P.subterms(t) if is_norm_call(x))
-    ctx.ob(rule, "fingerprint_url/single-normalize-call", len(ncalls) == 1, "fingerprint_url calls normalize_url %d times on different arguments" % len(ncalls), site)
+    factored = False
+    ncalls = outer_norm_calls(t)
+    ctx.ob(rule, "fingerprint_url/single-normalize-call", len(ncalls) == 1, "the components of fingerprint_url's result come from %d split-form normalize_url calls" % len(ncalls), site)
     for nc in ncalls:
         arg = nc[2][0] if nc[2] else dict(nc[3]).get("url")
         ok = arg is not None and not F.unguarded_paths(arg, F.is_param("url"), NM.is_lower)
         ctx.ob(rule, "fingerprint_url/url-lowercased-before-normalize", ok, "fingerprint_url does not lower-case the url before normalisation", site, witness="HTTP://LeMonde.FR/Path")
+        # hierarchy by construction: what is lower-cased and normalized again is normalize_url(url) itself (default options,
+        # same platform_aware), so two urls with one normalized form cannot get two fingerprints
+        inner_ok = arg is not None and not F.unguarded_paths(arg, F.is_param("url"), is_norm_call)
+        factored = factored or bool(inner_ok)
+        ctx.ob(rule, "fingerprint_url/factors-through-normalize_url", inner_ok,
+               "fingerprint_url lower-cases the raw url before normalize_url has seen it: escapes hide capitals from that pre-pass, so '?ref=FB' and '?ref=%%46B' (one canonical and one normalized form) get the fingerprints '' and 'ref=fb'", site,
+               witness="http://x.com/?ref=%46B&a=1")
+        for inner in (x for x in P.subterms(arg or ("const", None)) if is_norm_call(x)):
+            ikw = dict(inner[3])
+            iarg = inner[2][0] if inner[2] else ikw.get("url")
+            ctx.ob(rule, "fingerprint_url/inner-normalize/on-the-url-itself", iarg == ("param", "url"), "the first normalize_url call of fingerprint_url is applied to %s, not to the url" % P.show(iarg, maxdepth=3), site)
+            extra = sorted(k for k in ikw if k not in ("url", "platform_aware"))
+            ctx.ob(rule, "fingerprint_url/inner-normalize/default-options", not extra and ikw.get("platform_aware") == ("param", "platform_aware"),
+                   "the first normalize_url call of fingerprint_url changes the options %s (or does not forward platform_aware): it is no longer the normalized form the hierarchy speaks of" % extra, site)
         kw = dict(nc[3])
         ctx.ob(rule, "fingerprint_url/platform_aware-forwarded", kw.get("platform_aware") == ("param", "platform_aware"), "fingerprint_url does not forward platform_aware to normalize_url", site)
         ctx.ob(rule, "fingerprint_url/unsplit-false", kw.get("unsplit") == ("const", False), "fingerprint_url does not ask normalize_url for the split form", site)
@@ -162,11 +204,15 @@ def fingerprint_over_normalize(ctx, rule):
         leaf = lambda x, attr=attr: x[0] == "attr" and x[2] == attr and is_norm_call(x[1])
         has = F.find_nodes(term, leaf, data_only=True)
         ctx.ob(rule, "fingerprint_url/%s/from-normalize" % sink, bool(has), "fingerprint_url's %s does not come from normalize_url's %s" % (sink, attr), site)
-        bad = F.unguarded_paths(term, leaf, NM.is_lower)
+        # what is normalized the second time is already unescaped and lower-cased when fingerprint_url factors through
+        # normalize_url: lower-casing once more is then harmless but not needed
+        bad = [] if factored else F.unguarded_paths(term, leaf, NM.is_lower)
         ctx.ob(rule, "fingerprint_url/%s/lowercased-after-unescape" % sink, not bad,
                "fingerprint_url does not lower-case the %s after normalisation: %%C3%%89 is unescaped to 'É' while a raw 'É' was lower-cased to 'é'" % sink, site, witness="http://a.com/%C3%89")
     # lower-casing can reorder the items: the query is sorted again above the lower()
-    lows = [x for x in P.subterms(query, data_only=True) if NM.is_lower(x)]
+    lows = [x for x in P.subterms(query, data_only=True) if NM.is_lower(x) and not any(is_norm_call(z) and y is not z for y in [x] for z in [])]
+    # a lower() applied ABOVE the split-form call (on its result) can reorder the items; the one inside its url argument cannot
+    lows = [x for x in lows if any(is_norm_call(y) for y in P.subterms(x[2], data_only=True) if y in ncalls)]
     if lows:
         def sorted_above(t):
             return [x for x in P.subterms(t, data_only=True) if x[0] == "call" and x[1] == "builtins.sorted" and any(NM.is_lower(y) for y in P.subterms(x, data_only=True))]
@@ -175,7 +221,7 @@ def fingerprint_over_normalize(ctx, rule):
         # the re-sort is the same total order on (key, value) items as normalize_url's sort
         nq = NM.Norm(ctx).query
         nkeys = set(dict(x[3]).get("key") for x in P.subterms(nq) if x[0] == "call" and x[1] == "builtins.sorted")
-        for sx in sorted_above(query):
+        for sx in ([] if factored else sorted_above(query)):
             k = dict(sx[3]).get("key")
             ctx.ob(rule, "fingerprint_url/query/re-sort-uses-normalize-key", k is not None and k in nkeys,
                    "fingerprint_url re-sorts the lower-cased items with key=%s while normalize_url sorts with key=%s: items that only tie under the weaker key keep their pre-lower-casing order ('?tag=%%42eta&tag=alpha' vs '?tag=Beta&tag=alpha')" % (P.show(k, maxdepth=2) if k else "none", ", ".join(sorted(P.show(x, maxdepth=2) for x in nkeys if x))),
@@ -188,7 +234,9 @@ def fingerprint_over_normalize(ctx, rule):
         ok = rt[0] == "slice" and rt[1][0] == "call" and rt[1][1] == "urllib.parse.urlunsplit" and rt[1][2] and rt[1][2][0] == t and rt[2] == ("const", 2)
         ctx.ob(rule, "fingerprint_url/string-form-is-urlunsplit-of-tuple", ok,
                "fingerprint_url's string form is not urlunsplit(<the unsplit=False tuple>)[2:]: the two forms (and the LRU stems built from the tuple) disagree: %s" % P.show(rt, maxdepth=3), mod.site(r.node))
-    # custom filter key
+    # custom filter key (only matters when the url is lower-cased before it is unescaped)
+    if factored:
+        return
     nm = ctx.repo.mod("normalize_url")
     fp = ctx.repo.mod("fingerprint_url")
     sref = nm.func("should_strip_query_item")
@@ -203,3 +251,55 @@ def fingerprint_over_normalize(ctx, rule):
         ctx.ob(rule, "lang-filter-gets-lowercased-key/%s" % item[0], got,
                "should_strip_query_item passes the key as written (%r) to the custom filter: an upper-case letter revealed by unescaping (%%48L) escapes the hl/gl filter" % item[0],
                nm.site(sref.node), witness="http://a.com/p?%48L=fr&x=1")
+
+
+def redirection_sees_decoded_letters(ctx, rule):
+    """canonicalize_url decodes %75 to 'u'; normalize_url resolves redirections first: infer_redirection must find
+    the same keys in both spellings."""
+    ctx.rule(rule, "redirection inference is insensitive to the escapes canonicalize_url removes from keys: the text on which infer_redirection searches its key pattern and splits its cache-domain pattern has passed a substitution whose pattern matches every percent-encoded ASCII letter (regex-language inclusion) and whose callback returns that letter (all 52 letters x hex-digit case)")
+    repo = ctx.repo
+    im = repo.mod("infer_redirection")
+    ref = im.func("infer_redirection")
+    ctx.fn(ref.qualname)
+    site = im.site(ref.node)
+    ex = P.Extractor(repo, atomic=set())
+    rets = ex.function(ref)
+    url = ("param", "url")
+
+    def decodes_letters(x):
+        op = F.regex_op(x)
+        if op is None or op[1] != "sub" or len(op[2]) != 2 or op[2][0][0] != "funcref":
+            return False
+        mod, _, name = op[0].rpartition(".")
+        try:
+            rx = repo.const(repo.mod(mod), name)
+            A = Algebra()
+            letters = A.regex(r"%(?:4[1-9A-Fa-f]|5[0-9Aa]|6[1-9A-Fa-f]|7[0-9Aa])", 0, "fullmatch")
+            if A.subset(letters, A.regex(rx.pattern, rx.flags, "fullmatch")) is not None:
+                return False
+            import re as _re
+            cmod, _, cname = op[2][0][1].rpartition(".")
+            cb = repo.mod(cmod).func(cname)
+            for c in "ABCDEFGHIJKLMNOPQRSTUVWXYZabcdefghijklmnopqrstuvwxyz":
+                for esc in set(("%%%02X" % ord(c), "%%%02x" % ord(c))):
+                    if run_function(repo, cb, [_re.fullmatch(r"[\s\S]*", esc)]) != c:
+                        return False
+            return True
+        except (Unknown, AnalysisError, Unsupported):
+            return False
+
+    sites = []
+    for r in rets:
+        for t in [r.term] + [c for c, _ in r.conds]:
+            for x in P.subterms(t):
+                op = F.regex_op(x)
+                if op is not None and op[0].startswith("ural.infer_redirection.") and op[1] in ("search", "split", "match") and op[2]:
+                    subject = op[2][0]
+                    if (op[0], subject) not in [(a, b) for a, b, _ in sites]:
+                        sites.append((op[0], subject, x))
+    ctx.require_instances(rule, len(sites), 2, "pattern applications in infer_redirection")
+    for pat, subject, x in sites:
+        bad = F.unguarded_paths(subject, lambda y: y == url, decodes_letters)
+        ctx.ob(rule, "infer_redirection/%s/searched-text-has-letters-decoded" % pat.rpartition(".")[2], not bad,
+               "infer_redirection applies %s to the url as written: '?%%75rl=http://y.com' hides the key 'url' until canonicalize_url has decoded it, so normalize_url(canonicalize_url(u)) follows a redirection that normalize_url(u) does not see" % pat.rpartition(".")[2],
+               site, witness="http://x.com/?%75rl=http://y.com/page")
